@@ -37,6 +37,10 @@ class Contract:
                     self.attrs[item.targets[0].id] = item.value
         self.raises = tuple(self.attrs.get('raises', ()))
         self.variants = self.attrs.get('variants')
+        # type_variants = [{'param': 'type', ...}, ...]: the function is verified once per entry, the entry overriding
+        # `types` (a parameter whose run-time type is not fixed by the caller, e.g. Union[str, int] XML-RPC parameters);
+        # the value 'class:Name' binds the parameter to the class object Name
+        self.type_variants = self.attrs.get('type_variants')
         self.inline = set(self.attrs.get('inline', ()))
         self.types = self.attrs.get('types', {})
         self.returns = self.attrs.get('returns')
@@ -44,6 +48,18 @@ class Contract:
         self.assumed = bool(self.attrs.get('assumed', kind == 'external'))
         self.exact = self.attrs.get('exact', False)
         self.pure = bool(self.attrs.get('pure', False))
+
+    def all_variants(self):
+        """variant labels to verify: '<Class>' (exact class of self), '<Class>#<k>:<types>' / '#<k>:<types>' (k-th entry
+        of type_variants; the text after ':' is informational), or None"""
+        out = []
+        for v in (self.variants or [None]):
+            if self.type_variants:
+                for k, tv in enumerate(self.type_variants):
+                    out.append(f"{v or ''}#{k}:" + ','.join(f'{a}={t}' for a, t in tv.items()))
+            else:
+                out.append(v)
+        return out
 
     def __repr__(self):
         return f'<Contract {self.target}>'
@@ -147,16 +163,22 @@ class Registry:
         self._unsup('dict.update', line)
 
     def dictcomp(self, eng, n, fr, q):
-        # over-approximation: a fresh dict of the right types (the element expressions were evaluated for a generic
-        # element, so their safety obligations are generated); a key is present iff some selected element produces it,
-        # and its value is the value produced by SOME selected element with that key (python: the last one)
         _, vars_, guard, elt, coll = q
         k, v = elt
         d = eng.new_dict(eng.value_type(k), eng.value_type(v))
         hn, ha = eng.dict_has(d)
+        vn, va = eng.dict_val(d)
+        if len(vars_) == 1 and isinstance(k, SV) and k.t.eq(vars_[0]) and isinstance(coll, (DictV, ValuesView)):
+            # exact summary when the key of the new dict is the iterated key of the source dict (keys are then
+            # distinct): has'[k] <=> k in source and the filter holds; val'[k] = the value expression at k
+            eng.heap.set(hn, z3.Store(ha, d.ref, eng.def_array(vars_, guard)))
+            eng.heap.set(vn, z3.Store(va, d.ref, eng.def_array(vars_, eng.coerce_term(eng.materialize(v, d.vty), d.vty))))
+            return d
+        # over-approximation: a fresh dict of the right types (the element expressions were evaluated for a generic
+        # element, so their safety obligations are generated); a key is present iff some selected element produces it,
+        # and its value is the value produced by SOME selected element with that key (python: the last one)
         has = eng.run.fresh('dc_has', ha[d.ref].sort())
         eng.heap.set(hn, z3.Store(ha, d.ref, has))
-        vn, va = eng.dict_val(d)
         val = eng.run.fresh('dc_val', va[d.ref].sort())
         eng.heap.set(vn, z3.Store(va, d.ref, val))
         kt, vt = eng.coerce_term(k, d.kty), eng.coerce_term(eng.materialize(v, d.vty), d.vty)
